@@ -174,6 +174,48 @@ def run(tier, seed=0, shard=(0, 1)):
                         rep.fail('C10:tensor.functor.swap', 'evaluated permutation %r of wires of dimensions %r does not send '
                                  'wire i to position perm[i]: %r' % (perm, dims, got[0] if got[0] != 'ok' else 'wrong tensor'),
                                  'tensor functor %r on permutation(%r)' % (dims, list(perm)))
+        # the swap / permutation CIRCUITS as the classical-quantum functor evaluates them: bits, digits, qubits and qudits of
+        # different dimensions side by side; the (mixed) states on the wires must come out in the permuted order
+        if cname == 'circuit' and shard[0] == 0:
+            import numpy
+            from discopy.quantum.cqmap import CQMap, CQ, C, Q
+            from discopy.tensor import Dim
+
+            def wire_state(ob, k):
+                n = ob.dim
+                if isinstance(ob, circuit.Digit):
+                    return CQMap(CQ(), C(Dim(n)), (numpy.arange(1, n + 1) * (k + 2.0)) ** (k + 1))
+                rho = numpy.diag(numpy.arange(1, n + 1) * (k + 1.0)).astype(complex)
+                rho[0, n - 1], rho[n - 1, 0] = (k + 1) * 1j, -(k + 1) * 1j
+                return CQMap(CQ(), Q(Dim(n)), rho)
+
+            obs = [circuit.Digit(2), circuit.Qudit(2), circuit.Qudit(3), circuit.Digit(3)]
+            for width in (2, 3):
+                for combo in itertools.product(obs, repeat=width):
+                    if width == 3 and len(set(map(repr, combo))) < 2:
+                        continue
+                    dom = circuit.Ty(*combo)
+                    states = [wire_state(ob, k) for k, ob in enumerate(combo)]
+                    for perm in itertools.permutations(range(width)):
+                        builders = [('permutation', lambda: cls.permutation(list(perm), dom))]
+                        if list(perm) == [width - 1] + list(range(width - 1)):      # wire 0 goes last, the others move up
+                            builders.append(('swap', lambda: cls.swap(dom[:1], dom[1:])))
+                        for nm, build in builders:
+                            inp = 'circuit: %s(%r, %r).eval(mixed=True)' % (nm, list(perm), dom)
+                            rep.case(inp, nontrivial=True)
+                            out = [None] * width
+                            for i in range(width):
+                                out[perm[i]] = states[i]
+                            src, want = states[0], out[0]
+                            for st in states[1:]:
+                                src = src @ st
+                            for st in out[1:]:
+                                want = want @ st
+                            got = common.outcome(lambda: src >> build().eval(mixed=True))
+                            if got[0] != 'ok' or (got[1].dom, got[1].cod) != (want.dom, want.cod) \
+                                    or not numpy.allclose(got[1].array, want.array):
+                                rep.fail('C10:circuit.swap.evaluated', 'the evaluated %s does not send the state on wire i to '
+                                         'position perm[i]: %r' % (nm, got[0] if got[0] != 'ok' else 'wrong map'), inp)
         # the zx class also takes widths as plain ints: same diagram as with PRO types
         if cname == 'zx' and shard[0] == 0:
             for l, r_ in itertools.product(range(4), repeat=2):
